@@ -675,3 +675,66 @@ PROPS["C14"] = {
     "trusted_extra": ["JSON text -> JSON value parsing (Python's json for the model side, serde_json for the implementation) is trusted; regex validity is answered by the real regex crate"],
     "explanation": "unit correspondence = oracle for option parsing (the Lean parseOptions is the documented-defaults specification); pair oracle for non-interference on the real code",
 }
+
+
+# ---- C15 ---------------------------------------------------------------------------------------------------
+ANNOT_TEXTS = ["@jsx h", " @jsx  h ", "* @jsx h", "*  @jsx custom.h", "@jsx h extra words", "@jsxImportSource vue", "@jsxRuntime classic", "@jsxFrag F",
+               "@jsx", "@jsx ", "just a comment", "x @jsx h", "@JSX h", "* @jsxImportSource @vue/x", "@jsx\th", "@jsx h*/ /* @jsx k"]
+
+
+def comment(style, text):
+    if style == "block":
+        return "/*%s*/" % text
+    if style == "jsdoc":
+        return "/**%s*/" % (text if text.startswith(" ") else " " + text + " ")
+    return "//%s\n" % text.replace("*/", "").replace("/*", "")
+
+
+def c15_cases(tier, seed):
+    r = gen.Rng(seed)
+    run = corpus_cases("C15") + fixture_cases()
+    body = ["const a = <div>{x}</div>;", "function f() { INNER return <><Comp/><p>t</p></>; }", "const b = <Comp v-show={y}>{val}</Comp>;", "export default () => <></>;"]
+    for text, style, place, opt in itertools.product(ANNOT_TEXTS, ["block", "line", "jsdoc"], ["head", "second", "inner", "tail", "two"], [None, "g"]):
+        c = comment(style, text)
+        stmts = list(body)
+        if place == "head":
+            src = c + "\n" + "\n".join(stmts)
+        elif place == "second":
+            src = stmts[0] + "\n" + c + "\n" + "\n".join(stmts[1:])
+        elif place == "inner":
+            src = "\n".join(stmts).replace("INNER", c)
+        elif place == "tail":
+            src = "\n".join(stmts) + "\n" + c
+        else:  # an earlier and a later annotation: the later one wins
+            src = comment(style, "@jsx first") + "\n" + stmts[0] + "\n" + c + "\n" + "\n".join(stmts[1:])
+        src = src.replace("INNER", "")
+        o = {} if opt is None else {"pragma": opt}
+        if len(run) % 3 == 0:
+            o["optimize"] = True
+        run.append({"id": "e%d" % len(run), "src": gen.PRELUDE + src + "\n", "tsx": False, "opts": o})
+    def o15(rr):
+        o = gen.opts_random(rr)
+        if rr.chance(0.4):
+            o["pragma"] = rr.pick(["h", "createElement", "_h"])
+        return o
+    mods, hist = gen_modules(r, budget(tier, 1500, 40000), GENERAL_PROFILE, o15)
+    # sprinkle annotations over generated modules
+    for i, m in enumerate(mods):
+        if i % 2 == 0:
+            c = comment(r.pick(["block", "line", "jsdoc"]), r.pick(ANNOT_TEXTS))
+            lines = m["src"].split("\n")
+            pos = r.below(len(lines))
+            lines.insert(pos, c.rstrip("\n"))
+            m["src"] = "\n".join(lines)
+    run += mods
+    return [], run, {"rule": "fixtures + product of 16 annotation texts (name, padded, starred, dotted name, trailing words, @jsxImportSource/@jsxRuntime/@jsxFrag, bare @jsx, not at the start, wrong case, tab) x block/line/JSDoc style x placement (file head, before the second statement, inside a function, after the code, earlier+later annotation) x pragma option absent/present + %d generated modules (half with a random annotation at a random line, 40%% with the pragma option)" % len(mods),
+                     "exhaustive": True, "exhaustive_part": "annotation texts x styles x placements x option product", "histogram": dict(hist.most_common(30))}
+
+
+PROPS["C15"] = {
+    "theorems": ["C15_default_createVNode", "C15_comment_over_option", "C15_option_pragma", "C15_fragment_callee", "C15_later_comment_wins",
+                 "C15_unannotated_position_keeps", "C15_scan_no_tag", "C15_scan_other_jsx_tags", "C15_scan_bare", "C15_scan_name",
+                 "C15_scan_result_is_one_word"],
+    "cases": c15_cases,
+    "explanation": "oracle: the effective pragma is computed from the comments SWC attached before the module / each top-level item by the specification scanner (Text.pragmaOfComment) and the option; the real output must contain exactly one call of that identifier per lowered element/fragment and must not import createVNode; without a pragma every lowered element/fragment is a call of the createVNode imported once from one generated 'vue' import",
+}
